@@ -184,12 +184,17 @@ GuessStep(ev) ==
         tails == SubSeq(xr, N + 1, Len(xr))
         want == InitialGuess(mc, SubSeq(xr, 1, N))
         wt == WorstOf([i \in 1..N |-> RDiv(RAbs(RSub(TMapVal(mc.tm, xr[i]), mc.T[i])), mc.T[i])])
-        cands == IF ~okshape THEN <<Cand("C09", "guess.shape", FALSE, info)>>
+        \* the round trip presupposes that the reference lies in the range of the maps in use (the user maps of the harness are
+        \* not onto: the reduced-dof spatial map, and the time map T = scale (tau^2 + 1) >= scale)
+        inRange == /\ \A j \in 1..(N + 1) : SMapVal(mc, SMapInv(mc, mc.P[j], j - 1), j - 1) = mc.P[j]
+                   /\ (mc.tm.kind = "sq" => \A i \in 1..N : RLe(mc.tm.scale, mc.T[i]))
+        cands == IF ~inRange THEN <<>>
+                 ELSE IF ~okshape THEN <<Cand("C09", "guess.shape", FALSE, info)>>
                  ELSE <<CandM("C09", "guess.durations", wt[1], Tol9, info),
                         Cand("C09", "guess.exact_part", tails = SubSeq(want, N + 1, Len(want)), info),
                         Cand("C09", "guess.decodes_to_reference",
                              LET pr == Decode(mc, want) IN pr.P = mc.P /\ pr.BS = mc.BS /\ pr.BE = mc.BE, info)>>
-    IN Force(StepRec(cands, <<"initial_guesses">>))
+    IN Force(StepRec(cands, <<IF inRange THEN "initial_guesses" ELSE "initial_guesses_outside_map_range">>))
 TrGuess == IsEvent("init_guess") /\ sc' = GuessStep(Ev) /\ OReadLayout(Ev.obj) /\ Record
 
 (* ------------------------------ evaluate ------------------------------ *)
